@@ -111,3 +111,35 @@ reg("C38", "exploration",
     "Self-checking programs share data, bss, weak aliases, functions, ifuncs and TLS between an executable and 1-3 libraries in both directions (non-PIE with copy relocations and canonical PLT, PIE, -z nocopyreloc); every module reports the address it sees, initial value, store visibility and calls through pointers; all views must agree; the wild link is the executable or one of the libraries; calibrated on GNU ld.",
     "Cases GNU ld itself fails are inconclusive.",
     "runtime self-checking execution across modules, calibrated on GNU ld")
+reg("C15", "exploration",
+    "Random SECTIONS scripts (2-8 input-section descriptions with exact, prefix, leading-wildcard, short, ?, class, negated class, escaped, quoted and file patterns, KEEP, overlapping rules in different orders) over 5-30 custom sections in 1-3 objects are linked by wild and GNU ld with --gc-sections; a marker symbol per input section tells which output section it landed in; wild must equal ld, with a POSIX-fnmatch model as second opinion (model != ld => inconclusive); every difference is re-tested in isolation and the pattern reduced token by token to a class.",
+    "GNU ld 2.40 is the arbiter.",
+    "runtime differential monitor: section placement under generated linker scripts vs GNU ld")
+reg("C19", "exploration",
+    "Each link runs in a sandbox directory with up to 15 decoy siblings (<stem>.delete, <out>.tmp, <out>.layout, ...); a before/after snapshot (name, type, inode, size, mtime, hash) plus an strace of every path opened for writing, created, truncated, renamed, unlinked, chmod-ed or linked is compared with the allowed set computed from the command line (output, dependency file, layout/trace, gc-stats, save dir); output kinds, write modes, threads, prior outputs and 2-3 concurrent links with colliding stems are varied.",
+    "strace is the ground truth for transient effects; the allowed set is derived from the documented side files.",
+    "runtime file-system monitor: snapshot diff + syscall trace against an allowed set")
+reg("C22", "exploration",
+    "Twelve valid base links (objects, archives, thin archives, shared objects, linker/version scripts, export lists, response files) are mutated structure-aware (ELF header, section headers, symbols, relocations, groups, notes, .eh_frame lengths, dynamic/version tables, archive headers; text mutations; odd argument lists), ~3000 links per quick run under RUST_BACKTRACE=1, with an 8 GiB address-space cap; any signal, panic, abort or reproducible hang is a violation keyed by the first in-repo frame; every known site has a minimised pinned reproducer replayed on each run.",
+    "The coverage-guided cargo-fuzz/ASan tier was not built; hangs need three reproductions past a 60 s watchdog.",
+    "runtime crash monitor over structure-aware mutated inputs")
+reg("C23", "exploration",
+    "proggen programs x random subsets of 27 options that change generated-section sizes (pack-relative-relocs, hash styles, build-id modes, eh-frame-hdr, strip, relax, -E, --got-plt-syms, version scripts, -z now, string merging, output kinds, files-per-group) plus ~260 generated freestanding asm cases (pointers at every alignment, TLS forms, ifunc, weak undefined, copy relocations, COMDAT, absolute symbols); a violation is wild failing with one of its own size-accounting messages on an input GNU ld links; the failing option set is reduced to the necessary options.",
+    "Only failures whose text is one of wild's accounting diagnostics count; other rejections are inconclusive.",
+    "runtime monitor: accounting diagnostics over an option matrix, calibrated on GNU ld")
+reg("C24", "exploration",
+    "A grid of 17 command-line positions x 23 character classes (space, quotes, $, \\, ;, &, |, parentheses, redirections, backtick, braces, glob characters, #, ~, !, leading dash, UTF-8, newline) in file names, directories, -L/-l, option values, response files (nested), linker scripts and thin archives: each case links normally, links again with WILD_SAVE_DIR, runs run-with from another directory and compares the replayed output byte for byte with the original.",
+    "Relies on C06 for byte equality to be meaningful.",
+    "runtime round-trip monitor: save-dir replay vs original output")
+reg("C25", "exploration",
+    "Random link lines mixing objects, archives, thin archives and their members, -l/-L libraries, linker scripts (-T and implicit) with INPUT() files, version scripts, dynamic/export lists and response files; the set of sandbox files the link actually read is observed with strace (opened read-only then read or mapped) and must equal the parsed dependency file (each once, target = output); GNU ld's --dependency-file on the same command calibrates.",
+    "Files both linkers omit (response files, --retain-symbols-file) are not judged.",
+    "runtime monitor: syscall-observed read set vs dependency file")
+reg("C27", "exploration",
+    "proggen programs are partitioned randomly into 1-4 wild -r groups (half with a nested partial link), the relocatable outputs are checked structurally (rules calibrated on ld -r outputs) and linked finally by wild and by GNU ld in 2-4 output kinds; the transcript must equal GNU ld's direct link; after a defect in one feature the program is regenerated without it so exploration continues.",
+    "Transcripts never print addresses; ld -r and wild's own direct link calibrate.",
+    "runtime differential monitor: transcripts of partial-link pipelines vs direct links")
+reg("C28", "exploration",
+    "Each proggen program is linked by wild in every output kind its code model allows under pairwise-covering option vectors (relax, string merge, pack-relative-relocs, hash style, build-id, -z now, gc) and its transcript compared with GNU ld's default link of the same objects (lld must agree with ld first; ld under the same options must still print the expected transcript); a delta search names the responsible option.",
+    "GNU ld is the arbiter with lld as cross-check.",
+    "runtime differential monitor: program transcripts across an option matrix")
